@@ -246,10 +246,22 @@ def run_impl(family, cases, release=False):
 def run_model(family, cases):
     return _run_sharded([MODEL, TABLES_TXT, family], cases)
 
+GEN_FALLBACK = []      # notes for the evidence: the position generator (which plays games with the implementation's own
+                       # move generator) failed on the current tree and shipped positions were used instead
 def gen_positions(kind, seed, n):
-    rc, out = sh([HARNESS, 'gen', kind, str(seed), str(n)])
+    try:
+        rc, out = sh([HARNESS, 'gen', kind, str(seed), str(n)], timeout=180 + n // 50)
+    except subprocess.TimeoutExpired:
+        rc, out = -1, 'timeout'
     if rc != 0:
-        raise BuildError('gen', out[-2000:])
+        # the generator drives the implementation; when the implementation is broken badly enough to take it down,
+        # fall back to positions generated from the unchanged tree (corpus/fallback_<kind>.txt, all legal by the Spec)
+        fb = corpus('fallback_' + kind)
+        if not fb:
+            raise BuildError('gen', out[-2000:])
+        GEN_FALLBACK.append('position generator `%s` failed on this tree (%s); %d shipped positions used' % (kind, out.strip()[-160:].replace('\n', ' '), min(n, len(fb))))
+        rng = random.Random(seed)
+        return fb if n >= len(fb) else rng.sample(fb, n)
     return [l for l in out.split('\n') if l]
 
 def corpus(family):
